@@ -90,6 +90,13 @@ def run_case(prog, style: str, rseed: int, bindings, specs=None, use_reference=F
         feeds = {f"in{k}": v for k, v in b.items()}
         s2, got = L.ort_run(sess, feeds)
         if s2 != "ok":
+            # the primary runtime throws on a model it loaded: a failure unless the second runtime runs
+            # the model and gets the dataflow's values (then the defect is the runtime's, e.g. its
+            # mandatory duplicate-Cast removal losing implicit inputs of bodies)
+            s3, got2 = L.run_reference(model, feeds)
+            if s3 == "ok" and not any(L.same_value(g, w) for g, w in zip(got2, want)):
+                out["notes"].append("runtime-unsupported: " + got[:100])
+                continue
             out["fail"] = ("runtime-fails", f"onnxruntime run: {got[:200]}")
             return out
         for oi, (g, w) in enumerate(zip(got, want)):
@@ -158,7 +165,7 @@ def run(ck: core.Check):
         ck.leanchecker(["SpoxModel.Props.C01"])
 
     rng = ck.rng
-    n_random = ck.pick(320, 5000)
+    n_random = ck.pick(700, 6000)
     n_styles = ck.pick(3, 4)
     n_bind = 3
     skel_uses = ck.pick(3, 6)
@@ -235,6 +242,13 @@ def run(ck: core.Check):
             stats["emitted_nodes"] += es["nodes"]
             stats["emitted_graphs"] += es["graphs"]
             if R is not None:
+                for k, dd in R.created_in.items():
+                    ed = es["depth_of"].get(k)
+                    if ed is not None and prog["nodes"][k]["op"] != "arg":
+                        if dd > ed:
+                            stats["created_in_callback_emitted_further_out"] += 1
+                        elif dd < ed:
+                            stats["created_outside_emitted_inside_body"] += 1
                 stats["unrequested_constructions"] += R.extras
                 stats["created_inside_callbacks"] += sum(1 for k, dd in R.created_in.items() if dd > 0 and prog["nodes"][k]["op"] != "arg")
             nm = len(L.main_args(prog))
@@ -243,7 +257,8 @@ def run(ck: core.Check):
             lean_meta.append((pi, style, rseed, origin))
             if pi % 97 == 0 and style == styles[0]:
                 ck.sample({"origin": origin, "style": style, "nodes": len(prog["nodes"]), "depth": d,
-                           "ops": sorted(set(n["op"] for n in prog["nodes"])), "emission": es}, 5)
+                           "ops": sorted(set(n["op"] for n in prog["nodes"])),
+                           "emission": {k_: v_ for k_, v_ in es.items() if k_ != "depth_of"}}, 5)
 
     # --- the Lean side of the translation validation
     mism = collections.Counter()
@@ -302,6 +317,8 @@ def run(ck: core.Check):
                 "emitted_graphs": stats["emitted_graphs"],
                 "unrequested_constructions": stats["unrequested_constructions"],
                 "values_created_inside_callbacks": stats["created_inside_callbacks"],
+                "created_in_callback_emitted_further_out": stats["created_in_callback_emitted_further_out"],
+                "created_outside_emitted_inside_body": stats["created_outside_emitted_inside_body"],
             },
             "runtime_notes": dict(notes),
         }
